@@ -1,7 +1,7 @@
 #!/bin/bash
 # usage: seedtest.sh <patch.diff> <property> [tier]   — applies a seeded change to /repo, runs the check, reverts.
 set -u
-patch=$1; prop=$2; tier=${3:-quick}
+patch=$(realpath "$1"); prop=$2; tier=${3:-quick}
 cd /repo || exit 2
 if [ -n "$(git status --porcelain)" ]; then echo "repo not clean"; exit 2; fi
 git apply "$patch" 2>/dev/null || git apply --3way "$patch" >/dev/null 2>&1 || { echo "patch does not apply"; exit 2; }
